@@ -112,10 +112,16 @@ type Combinator struct {
 }
 
 // Text form, as a schema line.
-func (c *Combinator) String() string {
+func (c *Combinator) String() string { return c.text(false) }
+
+// text prints the line; with shortID the constructor id is written without
+// leading zero digits (TL: `#` followed by 1..8 hex digits, "#1a2b" = 0x00001a2b).
+func (c *Combinator) text(shortID bool) string {
 	var sb strings.Builder
 	sb.WriteString(c.Name)
-	if c.HasID {
+	if c.HasID && shortID {
+		fmt.Fprintf(&sb, "#%x", c.ID)
+	} else if c.HasID {
 		fmt.Fprintf(&sb, "#%08x", c.ID)
 	}
 	for _, f := range c.Fields {
@@ -164,8 +170,10 @@ func (c *Combinator) FieldIndex(name string) int {
 type Schema struct {
 	Constructors []*Combinator
 	Functions    []*Combinator
-	byName       map[string]*Combinator
-	byType       map[string][]*Combinator
+	// ShortIDs makes String print constructor ids without leading zero digits.
+	ShortIDs bool
+	byName   map[string]*Combinator
+	byType   map[string][]*Combinator
 }
 
 func (s *Schema) Constructor(name string) *Combinator { return s.byName[name] }
@@ -199,12 +207,12 @@ func (s *Schema) Function(name string) *Combinator {
 func (s *Schema) String() string {
 	var sb strings.Builder
 	for _, c := range s.Constructors {
-		sb.WriteString(c.String())
+		sb.WriteString(c.text(s.ShortIDs))
 		sb.WriteByte('\n')
 	}
 	sb.WriteString("\n---functions---\n\n")
 	for _, c := range s.Functions {
-		sb.WriteString(c.String())
+		sb.WriteString(c.text(s.ShortIDs))
 		sb.WriteByte('\n')
 	}
 	return sb.String()
